@@ -203,13 +203,13 @@ def run(chk: Check) -> None:
     run_sticky(chk, scen, pid="C03", rid="R5", names=("parse;parse", "parse;parse;parse", "tokenize;parse"))
     # reading a string starts with cutting it into tokens: the tokenizer over symbolic strings against the specification
     # tokenizer (the clause of C11, under this property's rule id; the parser analysis above starts from its tokens)
-    from .c11 import run_tokenize, universe
+    from .c11 import run_tokenize, universe, SMALL_ALPHABET
     chk.rule("C03.R7", "the tokenizer the parser reads through agrees with the specification tokenizer on every path over "
              "symbolic strings (token boundaries, types, function names)", minimum=300)
     for n_chars in (0, 1, 2):
         run_tokenize(chk, prog, n_chars, universe(), f"U{n_chars}", remap=lambda rid: "C03.R7")
     for n_chars in (3, 4):
-        run_tokenize(chk, prog, n_chars, frozenset("sgnSGNx7.+ #"), f"S{n_chars}", remap=lambda rid: "C03.R7")
+        run_tokenize(chk, prog, n_chars, frozenset(SMALL_ALPHABET), f"S{n_chars}", remap=lambda rid: "C03.R7")
     # the value of a literal: the text-to-number conversion the parser calls (clause shared with C05)
     from .c05 import run_literal_text
     run_literal_text(chk, prog, "C03.R8")
